@@ -618,4 +618,4 @@ ASSUMPTIONS = [
     "in crcapi/tt2crc partitions calculate_crc is replaced (symbolic mode only) by that translation; native replays of every path use the real function",
     "env/hostlink.py HostLink delivers whole frames; chipset objects are built by their real __init__ (ACR122/RC-S380 with the initialisation dialogue of the repository's tests)",
 ]
-LIMITS = {"quick": dict(max_time=200), "thorough": dict(max_time=1500)}
+LIMITS = {"quick": dict(max_time=200, logic=""), "thorough": dict(max_time=1500, logic="")}
